@@ -27,14 +27,20 @@ package polling
 //@   ensures[leaves_backoff_on_progress] progress > 0 && old(p.backoff) > 0 ==> p.backoff == 0 && p.interval == old(p.interval) && result == p.interval
 //@   nooverflow
 
+// Typestate token: pt is the power table in force for the given instance. Tokens are only handed out by
+// Store.GetPowerTable(instance) and by a successful ValidateFinalityCertificates (table after the validated
+// certificates); the poller must always hold the token of its NextInstance.
+//@ spec func isTableFor(pt gpbft.PowerEntries, instance mathint) bool
+
 // The store is never behind the poller: the poller only advances past instances that are in the store.
 //@ pred storeNotBehind(p *Poller) = p.Store.latestCertificate != nil ==>
 //@     p.Store.latestCertificate.GPBFTInstance + 1 >= p.NextInstance && p.Store.latestCertificate.GPBFTInstance < 18446744073709551615
 
 //@ func (*Poller).CatchUp
 //@   property C20
-//@   requires storeNotBehind(p)
+//@   requires storeNotBehind(p) && isTableFor(p.PowerTable, p.NextInstance)
 //@   modifies auto
+//@   ensures[holds_the_table_of_its_next_instance] isTableFor(p.PowerTable, p.NextInstance)
 //@   ensures[progress_is_instances_advanced] result0 == p.NextInstance - old(p.NextInstance)
 //@   ensures result1 != nil ==> result0 == 0
 //@   ensures p.NextInstance >= old(p.NextInstance)
@@ -44,12 +50,12 @@ package polling
 //@ func (*Subscriber).poll
 //@   property C20
 //@   harness harness/poll_progress_test.go
-//@   requires storeNotBehind(s.poller)
+//@   requires storeNotBehind(s.poller) && isTableFor(s.poller.PowerTable, s.poller.NextInstance)
 //@   modifies auto
 //@   maypanic
 //@   ensures[progress_is_instances_advanced] _progress == s.poller.NextInstance - old(s.poller.NextInstance)
 //@   loop 1
-//@     invariant s.poller == old(s.poller) && start == old(s.poller.NextInstance) && s.poller.NextInstance >= start && storeNotBehind(s.poller)
+//@     invariant s.poller == old(s.poller) && start == old(s.poller.NextInstance) && s.poller.NextInstance >= start && storeNotBehind(s.poller) && isTableFor(s.poller.PowerTable, s.poller.NextInstance)
 
 //@ func (*Subscriber).run
 //@   property C20
@@ -66,15 +72,15 @@ package polling
 
 //@ func (*Poller).Poll
 //@   property C16, C20
-//@   requires storeNotBehind(p)
+//@   requires storeNotBehind(p) && isTableFor(p.PowerTable, p.NextInstance)
 //@   modifies auto
 //@   maypanic
 //@   ensures[next_instance_never_decreases] p.NextInstance >= old(p.NextInstance)
-//@   ensures result1 == nil ==> storeNotBehind(p)
+//@   ensures[advances_only_with_the_matching_table] result1 == nil ==> storeNotBehind(p) && isTableFor(p.PowerTable, p.NextInstance)
 //@   loop 1
-//@     invariant p.NextInstance >= old(p.NextInstance) && p.Store == old(p.Store) && storeNotBehind(p)
+//@     invariant p.NextInstance >= old(p.NextInstance) && p.Store == old(p.Store) && storeNotBehind(p) && isTableFor(p.PowerTable, p.NextInstance)
 //@   loop 2
-//@     invariant p.NextInstance >= old(p.NextInstance) && p.Store == old(p.Store) && storeNotBehind(p)
+//@     invariant p.NextInstance >= old(p.NextInstance) && p.Store == old(p.Store) && storeNotBehind(p) && isTableFor(p.PowerTable, p.NextInstance)
 //@   at ValidateFinalityCertificates 1
 //@     before[validates_against_own_table_and_instance] arg(2) == p.PowerTable && arg(3) == p.NextInstance && arg(1) == p.NetworkName && arg(0) == p.SignatureVerifier
 //@     before[validates_the_received_certificate] len(arg(5)) == 1 && arg(5)[0] == cert
